@@ -551,7 +551,11 @@ func TestRandom(t *testing.T) {
 			}
 			run(t, rt, Case{Prim: "etag", Mode: "reject", S: vev.B(s)}, true)
 		case 3:
-			s := rapid.OneOf(rapid.StringMatching(`[ -~]{0,20}`), rapid.StringMatching(`[A-Za-z \-'é]{0,12}`)).Draw(rt, "phrase")
+			s := rapid.OneOf(rapid.StringMatching(`[ -~]{0,20}`), rapid.StringMatching(`[A-Za-z \-'é]{0,12}`),
+				// long reason phrases (a length guard is as plausible here as on the tag route)
+				rapid.Custom(func(t *rapid.T) string {
+					return strings.TrimSpace(strings.Repeat(rapid.SampledFrom([]string{"Very Long Reason ", "x", "é "}).Draw(t, "unit"), rapid.SampledFrom([]int{70, 300, 1024, 4096, 9000}).Draw(t, "n")))
+				})).Draw(rt, "phrase")
 			run(t, rt, Case{Prim: "status", Mode: "identity", N: int64(rapid.IntRange(100, 999).Draw(rt, "code")), S: vev.B(s)}, s != "")
 		case 4:
 			s := rapid.OneOf(rapid.StringMatching(`(HTTP/1\.1|HTTP|FOO|)[ \t]{0,2}[-+0-9a-fx_.]{0,5}[ \t]{0,2}[A-Za-z ]{0,6}`), genBytes()).Draw(rt, "text")
